@@ -1,6 +1,6 @@
 """C04 - modified / valid / last-modified-time tell the truth (passive probes woken every cycle vs the write log)."""
 from __future__ import annotations
-from .runner import Result, Violation
+from .runner import Result, Violation, scaled
 from .gen_coll import gen_coll_case, parse_dumps, write_log
 from .collmodel import Node, SHAPES, dump_value, _key
 
@@ -34,7 +34,7 @@ def generate(rng, tier, seed):
 
 
 def _generate(rng, tier, seed):
-    n = 200 if tier == "quick" else 3000
+    n = scaled(200 if tier == "quick" else 3000)
     cases = []
     for k in range(n):
         cases.append(gen_coll_case(rng, f"c04_{seed}_{k}", probes=True, allow_invalidate=True))
